@@ -26,6 +26,9 @@ def stretch(grid, lam):
     return CartesianGrid([[b[0] * lam, b[1] * lam] for b in grid.axes_bounds], grid.shape, periodic=grid.periodic)
 
 
+RING_CENTRE: dict = {}
+
+
 def make_field(rng, kind=None):
     from pde import CartesianGrid, ScalarField
     from droplets.droplets import DiffuseDroplet
@@ -63,6 +66,7 @@ def make_field(rng, kind=None):
         ro = rng.uniform(0.28, 0.36) * min(shape)
         d2 = sum(((idx[a] + 0.5 - c[a] + shape[a] / 2) % shape[a] - shape[a] / 2) ** 2 for a in range(dim))
         data = (((d2 < ro**2) & (d2 > (ro - 2.2) ** 2)) | (d2 < rng.uniform(1.2, 2.2) ** 2)).astype(float)
+        RING_CENTRE[data.tobytes()] = c
     else:
         k = rng.randint(1, 3)
         L = [n * dx for n in shape]
@@ -132,7 +136,7 @@ def run_cases(ck: Check, n: int):
     rng = ck.rng
     reqs, expect = [], []
     for i in range(n):
-        grid, field, kind = make_field(rng)
+        grid, field, kind = make_field(rng, kind="ring+blob" if i % 4 == 3 else None)
         data = field.data
         dim = grid.dim
         case = {"shape": list(grid.shape), "dx": float(grid.discretization[0]), "kind": kind}
@@ -189,6 +193,14 @@ def run_cases(ck: Check, n: int):
                 # the count may only change when a component is cut differently by the periodic boundary: try cuts through every part
                 shifts += [tuple(rng.randrange(s) for s in grid.shape) for _ in range(3)]
                 shifts += [tuple((s // 2) * b for s, b in zip(grid.shape, bits)) for bits in itertools.product((0, 1), repeat=dim)][1:]
+                c = RING_CENTRE.get(data.tobytes())
+                if c is not None:
+                    # put the common centre of the ring and of the blob right onto a periodic boundary (per axis, and on a corner)
+                    onb = [int(round(-c[a])) % grid.shape[a] for a in range(dim)]
+                    for a in range(dim):
+                        for e in (-1, 0, 1):
+                            shifts.append(tuple((onb[b] + e) % grid.shape[b] if b == a else 0 for b in range(dim)))
+                    shifts.append(tuple(onb))
             for shift in shifts:
                 v = length(ScalarField(grid, np.roll(data, shift, axis=tuple(range(dim)))), method, **kw)
                 ok = (not isinstance(v, str)) and (rel_close(v, base, 1e-7) if exact else abs(2 * np.pi / v - 2 * np.pi / base) <= 1.0 * dk)
